@@ -64,7 +64,7 @@ package router
 // is the router's own address, its destination is a non-multicast Mycoria address and the outbound policy admits it.
 //@ pred outboundOK(src netip.Addr, dst netip.Addr, routerIP netip.Addr, status connStatus) = src == routerIP && uf("prefixContains", bool, m.BaseNetPrefix, dst) && !uf("prefixContains", bool, multicastPrefix, dst) && status == connStatusAllowed
 //@ func Router.handleTunPacket
-//@   requires w != nil && len(packetData) <= 1000000 && r.instance.NetStack() != nil && r.instance.TunDevice() != nil
+//@   requires w != nil && len(packetData) <= 1048576 && r.instance.NetStack() != nil && r.instance.TunDevice() != nil
 //@   callsite HelloPingHandler.Send key-setup-only-for-admitted-packets [C06]: outboundOK(src, dst, routerIP, status) && arg1 == dst
 //@   callsite frame.Builder.NewFrameV1 traffic-frame-addresses [C06]: outboundOK(src, dst, routerIP, status) && arg1 == r.instance.Identity().IP && arg2 == dst && arg3 == frame.NetworkTraffic
 //@   callsite Router.RouteFrame only-admitted-packets-enter-the-mesh [C06]: outboundOK(src, dst, routerIP, status)
